@@ -132,7 +132,7 @@ func runConcBulk(cc *ConcCase, tr *Tr) error {
 		}
 		close(start)
 		if !waitAll(&wg, tr) {
-			continue
+			return nil // the remaining rounds of this case would wait for the same readers
 		}
 		sum := func(xs []int) (t int) {
 			for _, x := range xs {
@@ -244,7 +244,7 @@ func runConcDir(cc *ConcCase, tr *Tr) error {
 		}
 		close(start)
 		if !waitAll(&wg, tr) {
-			continue
+			return nil // the remaining rounds of this case would wait for the same readers
 		}
 		for _, eb := range bufs {
 			for _, e := range eb.evs {
@@ -362,7 +362,7 @@ func runConcFile(cc *ConcCase, tr *Tr) error {
 		}
 		close(start)
 		if !waitAll(&wg, tr) {
-			continue
+			return nil // the remaining rounds of this case would wait for the same readers
 		}
 		for _, eb := range bufs {
 			for _, e := range eb.evs {
